@@ -656,7 +656,11 @@ func (m *Model) buildMap(named *types.Named, iface string) *MapModel {
 						if op, addr, ok := AtomicOp(c); ok && op == "Load" {
 							a := Addr(addr)
 							if a.Owner == mm.StateOwner && a.Field == mm.FlagF {
-								mm.InProg = f
+								// several boolean helpers may load the flag (an unused `idle()` beside resizeInProgress): the
+								// one the compute core calls is the one its validation is read through
+								if mm.InProg == nil || calledRank(p, mm, f) > calledRank(p, mm, mm.InProg) {
+									mm.InProg = f
+								}
 							}
 							if a.Owner == mm.Name && a.Field == mm.TableF {
 								// several boolean helpers may look at the table word (e.g. "is the table minimal now"):
@@ -1570,6 +1574,18 @@ func newerTblRank(p *Prog, mm *MapModel, f *ssa.Function) int {
 			rank++
 			break
 		}
+	}
+	return rank
+}
+
+// calledRank: 2 when the compute core calls f, 1 when anything does, 0 for a helper nobody calls.
+func calledRank(p *Prog, mm *MapModel, f *ssa.Function) int {
+	rank := 0
+	for _, s := range CallSitesOf(p.Funcs, f) {
+		if s.Parent() == mm.Core {
+			return 2
+		}
+		rank = 1
 	}
 	return rank
 }
